@@ -381,6 +381,8 @@ def r_bound_stride_sites(F, R):
     for tb in F.bodies.values():
         if tb.in_tests() or tb.derived or tb.kind == "Closure":
             continue
+        if F.only_inlined(tb):
+            continue  # a private helper: its call of Stride::index is judged in each caller
         has = any(callee_tag(t.get("callee")) == ("Stride", "index") for (_, t) in tb.calls()) or any(
             any(callee_tag(t.get("callee")) == ("Stride", "index") for (_, t) in cb.calls())
             for cb in F.closures_of.get(tb.key, []))
